@@ -8,6 +8,8 @@ CONSTANTS
   Vals <- MCVals
   MaxS = 7
   SVals <- MCSVals
+  MaxSteps = 3
+  StepVals <- MCStepVals
   Variant = "axis0"
 INVARIANT StableShape
 INVARIANT StableInRange
